@@ -102,6 +102,7 @@ Proof.
   - cbn in V. apply store_ok_new_obj; [exact S|]. intros e0 [<-|[]]. apply valid_ehb_ok, V.
   - cbn in V. apply store_ok_new_obj; [exact S|]. cbn [refs_of]. apply valid_rows_ok, V.
   - apply solve_store_ok, S.
+  - apply solve_store_ok, S.
   - destruct (eval_obj (es s) r) as [st1 x] eqn:H. cbn [fst es with_es].
     pose proof (eval_obj_frame _ _ _ _ H) as F.
     eapply store_ok_le; [exact S|apply frame_back, F|apply le_st_frame, F].
@@ -230,4 +231,27 @@ Proof.
   - exact G.
   - destruct (eval_obj _ _) as [st' v] eqn:E. cbn [snd].
     eapply eval_obj_value; [exact E|exact Ho|exact G2|]. intros Hk0. exfalso. apply (N2 o Ho Hk0).
+Qed.
+
+(** ** own constraints / LMIs of the functions: the filter "has an own constraint OR an own LMI" drops nothing *)
+Theorem own_refs_all s : own_refs s = flat_map (fun f => fst f ++ snd f) (fown s).
+Proof.
+  unfold own_refs. induction (fown s) as [|[cs ls] l IH]; cbn [filter flat_map]; [reflexivity|].
+  destruct cs as [|c cs], ls as [|m ls]; cbn [has_own fst snd negb orb flat_map]; rewrite IH; reflexivity.
+Qed.
+
+(** ** a solve with a dimension-reduction heuristic: the certificate is the FIRST answer's, the primal
+    instance is the LAST answer's *)
+Theorem heuristic_solve s first rest :
+  closed s ->
+  let s1 := fst (step s (SolveH first rest)) in
+  let lastS := last rest first in
+  (forall k r d, NoDup (wsent s1) -> nth_error (wsent s1) k = Some r -> nth_error (sDual first) k = Some d ->
+                 eval_dual (es s1) r = Ok d)
+  /\ lpv (es s1) = map (fun i => Some (column (sP lastS) i)) (seq 0 (length (lpv (es s))))
+  /\ lev (es s1) = map (fun i => Some (nth i (sF lastS) 0%Q)) (seq 0 (S (length (lev (es s))))).
+Proof.
+  intro C. cbv zeta. unfold step. cbn [valid_op step_valid fst].
+  split; [|exact (solve_leaves s (answer_of first rest) C)].
+  intros k r d N Hr Hd. exact (duals_latest s (answer_of first rest) k r d C N Hr Hd).
 Qed.
